@@ -580,6 +580,89 @@ def check_unique(ctx):
                good, at=chk.where())
 
 
+def _field_flows(func, fields):
+    '''Flow-insensitive def-use closure inside one function: for every
+    local name, the dependency fields (task.depends_on ...) whose elements
+    may flow into it.  An over-approximation of the flows, so a field that
+    does NOT reach a name certainly never does.'''
+    flows = {}
+
+    def of(expr, local=None):
+        '''fields flowing into the value of expr; comprehension variables
+        are scoped to their comprehension.'''
+        local = local or {}
+        if isinstance(expr, (ast.ListComp, ast.SetComp, ast.GeneratorExp,
+                             ast.DictComp)):
+            scope = dict(local)
+            got = set()
+            for gen in expr.generators:
+                src = of(gen.iter, scope)
+                for sub in ast.walk(gen.target):
+                    if isinstance(sub, ast.Name):
+                        scope[sub.id] = src
+            if isinstance(expr, ast.DictComp):
+                return of(expr.key, scope) | of(expr.value, scope)
+            return of(expr.elt, scope)
+        if isinstance(expr, ast.Attribute) and expr.attr in fields:
+            return {expr.attr}
+        if isinstance(expr, ast.Name):
+            if expr.id in local:
+                return set(local[expr.id])
+            return set(flows.get(expr.id, set()))
+        got = set()
+        for child in ast.iter_child_nodes(expr):
+            if isinstance(child, ast.expr):
+                got |= of(child, local)
+        return got
+
+    def add(name, got):
+        if got - flows.get(name, set()):
+            flows[name] = flows.get(name, set()) | got
+            return True
+        return False
+    def step(node):
+        changed = False
+        if isinstance(node, ast.Assign):
+            got = of(node.value)
+            for tgt in node.targets:
+                for sub in ast.walk(tgt):
+                    if isinstance(sub, ast.Name):
+                        changed |= add(sub.id, got)
+        elif isinstance(node, ast.AugAssign) and isinstance(
+                node.target, ast.Name):
+            changed |= add(node.target.id, of(node.value))
+        elif isinstance(node, ast.For):
+            got = of(node.iter)
+            for sub in ast.walk(node.target):
+                if isinstance(sub, ast.Name):
+                    changed |= add(sub.id, got)
+        elif isinstance(node, ast.Call) and call_name(node) in (
+                'append', 'add', 'extend', 'update', 'insert',
+                'appendleft', 'extendleft', 'push') and isinstance(
+                    receiver(node), ast.Name):
+            got = set()
+            for arg in node.args:
+                got |= of(arg)
+            changed |= add(receiver(node).id, got)
+        return changed
+
+    # statements before the first loop run once, in order; the loops are
+    # iterated to a fixpoint; then the rest once
+    body = func.node.body
+    first_loop = next((i for i, st in enumerate(body)
+                       if isinstance(st, (ast.While, ast.For))), len(body))
+    for stmt in body[:first_loop]:
+        for node in ast.walk(stmt):
+            step(node)
+    changed, rounds = True, 0
+    while changed and rounds < 10:
+        changed, rounds = False, rounds + 1
+        for stmt in body[first_loop:]:
+            for node in ast.walk(stmt):
+                changed |= step(node)
+    return flows
+
+
 def check_close_fields(ctx):
     program = ctx.program
     init = program.func(f'{TASKM}:Task.__init__')
@@ -597,55 +680,57 @@ def check_close_fields(ctx):
     ctx.floor('CLOSE-FIELDS', len(fields), 2, 'dependency-set fields of '
               'Task')
     close = program.func(f'{TASKM}:close_dependency_graph')
-    env = Env(close)
-    body = close.node.body
-    loop = [n for n in body if isinstance(n, ast.While)]
-    if not loop:
-        ctx.undecided('CLOSE-FIELDS', close, 'no while loop')
+    flows = _field_flows(close, fields)
+    loop = [n for n in ast.walk(close.node) if isinstance(n, ast.While)]
+    ret = [n for n in ast.walk(close.node) if isinstance(n, ast.Return) and
+           n.value is not None]
+    if not loop or not ret:
+        ctx.undecided('CLOSE-FIELDS', close, 'no work-list loop / return')
         return
-    local = env.clone()
-    flows = {}
-    for stmt in loop[0].body:
-        if isinstance(stmt, ast.Assign) and isinstance(
-                stmt.targets[0], ast.Name):
-            attrs = {n.attr for n in ast.walk(stmt.value)
-                     if isinstance(n, ast.Attribute) and n.attr in fields}
-            names = {n.id for n in ast.walk(stmt.value)
-                     if isinstance(n, ast.Name)}
-            got = set(attrs)
-            for name in names:
-                got |= flows.get(name, set())
-            flows[stmt.targets[0].id] = got
-        elif isinstance(stmt, ast.Expr) and isinstance(stmt.value,
-                                                       ast.Call):
-            call = stmt.value
-            if call_name(call) in ('update', 'add', 'extend') and \
-                    isinstance(receiver(call), ast.Name):
-                got = set()
-                for arg in call.args:
-                    for n in ast.walk(arg):
-                        if isinstance(n, ast.Name):
-                            got |= flows.get(n.id, set())
-                        if isinstance(n, ast.Attribute) and n.attr in \
-                                fields:
-                            got.add(n.attr)
-                flows[receiver(call).id] = flows.get(receiver(call).id,
-                                                     set()) | got
-    ret = [n for n in walk_local(close.node) if isinstance(n, ast.Return)]
-    retvar = None
-    for node in ast.walk(ret[-1].value):
-        if isinstance(node, ast.Name):
-            retvar = node.id
-    qvar = txt(loop[0].test)
+    retvars = {n.id for n in ast.walk(max(ret, key=lambda r: r.lineno).value)
+               if isinstance(n, ast.Name)}
+    qvars = {n.id for n in ast.walk(loop[0].test) if isinstance(n, ast.Name)}
     for fld in fields:
-        ctx.decide('CLOSE-FIELDS', close, f'closure result `{retvar}` '
-                   f'collects task.{fld}', fld in flows.get(retvar, set()),
-                   at=close.where(loop[0]))
-        ctx.decide('CLOSE-FIELDS', close, f'next round `{qvar}` follows '
-                   f'task.{fld}', fld in flows.get(qvar, set()),
-                   at=close.where(loop[0]),
+        got_ret = any(fld in flows.get(v, set()) for v in retvars)
+        got_q = any(fld in flows.get(v, set()) for v in qvars)
+        ctx.decide('CLOSE-FIELDS', close, f'closure result '
+                   f'`{"/".join(sorted(retvars))}` collects task.{fld}',
+                   got_ret, at=close.where(loop[0]),
+                   detail='no data flow from that field into the returned '
+                          'collection (flow-insensitive def-use closure)'
+                   if not got_ret else None)
+        ctx.decide('CLOSE-FIELDS', close, f'work list '
+                   f'`{"/".join(sorted(qvars))}` follows task.{fld}',
+                   got_q, at=close.where(loop[0]),
                    detail='transitive: dependencies of dependencies of both '
-                          'kinds')
+                          'kinds' if not got_q else None)
+    # identity, not name: two different tasks with one name must BOTH be
+    # returned, the duplicate-name check that follows has to see them
+    by_name = []
+    for node in ast.walk(close.node):
+        if isinstance(node, ast.Compare) and isinstance(
+                node.ops[0], (ast.In, ast.NotIn)) and isinstance(
+                    node.left, ast.Attribute) and node.left.attr == 'name':
+            by_name.append(node)
+        if isinstance(node, ast.Call) and call_name(node) in ('add',
+                                                              'append') \
+                and node.args and isinstance(
+                    node.args[0], ast.Attribute) and \
+                node.args[0].attr == 'name' and receiver(node) is not None:
+            by_name.append(node)
+    if by_name:
+        ctx.violated('CLOSE-FIELDS', close,
+                     f'visited tasks are remembered by name: '
+                     f'{txt(by_name[0])[:50]}', at=close.where(by_name[0]),
+                     detail='a second task with an already seen name is '
+                            'neither returned nor traversed: its '
+                            'dependencies are lost and '
+                            'check_unique_task_names never sees the '
+                            'duplicate')
+    else:
+        ctx.holds('CLOSE-FIELDS', close, 'tasks are de-duplicated by '
+                  'identity (no membership test on .name)',
+                  at=close.where(), nontrivial=False)
     # build_graphs: each field to its own graph
     build = program.func(f'{COMMON}:build_graphs')
     pairs = {}
@@ -667,3 +752,48 @@ def check_close_fields(ctx):
             if isinstance(c, ast.Call) and call_name(c) == 'add_node']
     ctx.decide('CLOSE-FIELDS', build, f'every task is a node of {adds}',
                len(set(adds)) >= 2, at=build.where(), nontrivial=False)
+
+
+# ------------------------------------------------------------- USE-PURE ---
+
+def check_use_pure(ctx):
+    '''Deriving a wrapper from another one (stacked decorators, map) and
+    asking a wrapper for its task never modify the wrapper they start from:
+    a request is described by the wrapper alone, whatever was derived from
+    it before.'''
+    from .. import effects
+    program = ctx.program
+    analyzer = effects.Analyzer(program, max_depth=3)
+    n = 0
+    for key in ('valjean.cosette.use:Use.from_func',
+                'valjean.cosette.use:Use.map',
+                'valjean.cosette.use:using',
+                'valjean.cosette.use:Use.__call__'):
+        func = program.maybe_func(key)
+        if func is None:
+            continue
+        n += 1
+        summ = analyzer.summary(func)
+        # filling the memo (Use._CACHE) is the purpose of get_task: it does
+        # not change what the wrapper asks for
+        effs = [e for e in summ.effects
+                if not (func.params and func.params[0] == 'cls' and
+                        e.root == 0) and e.field != '_CACHE' and
+                '_CACHE' not in e.what]
+        if effs:
+            for eff in effs[:2]:
+                pname = func.params[eff.root] if eff.root < len(
+                    func.params) else f'#{eff.root}'
+                ctx.violated('USE-PURE', func,
+                             f'{func.name}: {eff.what} (reaches `{pname}`'
+                             f'{"." + eff.field if eff.field else ""})',
+                             at=f'{eff.func.module.relpath}:{eff.lineno}',
+                             detail='the wrapper that is decorated again is '
+                                    'modified: every wrapper derived from it '
+                                    'earlier now describes another request '
+                                    '(' + eff.describe() + ')')
+        else:
+            ctx.holds('USE-PURE', func, f'{func.name}: no write reaches the '
+                      f'wrapper / task it is given', at=func.where(),
+                      nontrivial=func.name == 'from_func')
+    ctx.floor('USE-PURE', n, 3, 'wrapper-deriving functions of use.py')
